@@ -275,10 +275,19 @@ func (w *verifC14World) step(op int, val int64) {
 // block and the next two decades) agrees with the reference model: nearest-no-later visible version, future versions
 // from their block on, deletions from the delete block on, unreferenced versions findable for the stale period and
 // then gone - also after the store garbage-collects them.  Legal use never panics.
-func VerifC14Model() {
+func VerifC14Model() { verifC14Run(false) }
+
+// VerifC14AfterDelete: the same, with the first version deleted in the block it was appended in before the free steps
+// (re-creation of a deleted entry is then within reach of the quick tier's two steps).
+func VerifC14AfterDelete() { verifC14Run(true) }
+
+func verifC14Run(deleteFirst bool) {
 	w := verifC14NewWorld()
 	val := int64(1)
 	w.step(0, val)
+	if deleteFirst {
+		w.step(2, 0)
+	}
 	steps := verif_param("steps", 2)
 	for s := 0; s < steps; s++ {
 		val++
